@@ -829,14 +829,22 @@ class CSSCalc(CSSFunction):
 
         types = self._prods  # rename!
 
+        # white space, one or more S tokens (a comment between white space
+        # is taken out by the ProdParser and leaves two S tokens)
+        def _S(minimum=1):
+            return Sequence(PreDef.S(), minmax=lambda: (minimum, None))
+
         _operator = Choice(
-            Prod(
-                name='Operator */',
-                match=lambda t, v: v in '*/',
-                toSeq=lambda t, tokens: (t[0], t[1]),
+            Sequence(
+                Prod(
+                    name='Operator */',
+                    match=lambda t, v: v in '*/',
+                    toSeq=lambda t, tokens: (t[0], t[1]),
+                ),
+                _S(0),
             ),
             Sequence(
-                PreDef.S(),
+                _S(),
                 Choice(
                     Sequence(
                         Prod(
@@ -844,7 +852,7 @@ class CSSCalc(CSSFunction):
                             match=lambda t, v: v in '*/',
                             toSeq=lambda t, tokens: (t[0], t[1]),
                         ),
-                        PreDef.S(optional=True),
+                        _S(0),
                     ),
                     Sequence(
                         Prod(
@@ -852,7 +860,7 @@ class CSSCalc(CSSFunction):
                             match=lambda t, v: v in '+-',
                             toSeq=lambda t, tokens: (t[0], t[1]),
                         ),
-                        PreDef.S(),
+                        _S(),
                     ),
                     PreDef.funcEnd(stop=True, mayEnd=True),
                 ),
@@ -868,7 +876,7 @@ class CSSCalc(CSSFunction):
                 name='CALC',
                 match=lambda t, v: t == types.FUNCTION and normalize(v) == 'calc(',
             ),
-            PreDef.S(optional=True),
+            _S(0),
             _operant(),
             Sequence(_operator, _operant(), minmax=lambda: (0, None)),
             PreDef.funcEnd(stop=True),
